@@ -5,6 +5,7 @@ the new text.  Instance: copyright notices.
 -/
 import ReuseVerif.Lemmas.C09Sections
 import ReuseVerif.Lemmas.C09Lines
+import ReuseVerif.Lemmas.C09TagsLocal
 
 namespace C09L
 open Py Model Spec C08L C10L
@@ -225,5 +226,123 @@ theorem step_cpr {c : HdrCfg} {replace skip : Bool} {info : Extracted} {t t' : T
     · exact h
     · exact hfromHdr (createHeader_cpr hmerge hcr x (.inr ((mem_extractRaw_cpr hnsH).mpr h)))
   · exact hfromHdr (createHeader_cpr hmerge hcr x (.inl hx))
+
+/-! ### licence expressions and contributors: the step -/
+
+theorem mem_extractRaw_lic {t x : Text} (h : findSub Generated.ignoreStart t = none) :
+    x ∈ (extractRaw t).lic ↔ x ∈ findSpdxTagWith Generated.endRe Generated.licenseTag t := by
+  unfold extractRaw extractRawWith
+  simp only [mem_dedup, filterIgnore_id h]
+
+theorem mem_extractRaw_con {t x : Text} (h : findSub Generated.ignoreStart t = none) :
+    x ∈ (extractRaw t).con ↔ x ∈ findSpdxTagWith Generated.endRe Generated.contributorTag t := by
+  unfold extractRaw extractRawWith
+  simp only [mem_dedup, filterIgnore_id h]
+
+/-- **Table obligation.**  The generated END expression reads a line feed only inside the white space that follows
+    `"`, `'` or `]`. -/
+theorem endRe_guarded : EndGuarded Generated.endRe := by decide
+
+theorem lic_piecewise : Piecewise (findSpdxTagWith Generated.endRe Generated.licenseTag) (fun u => openEnd u = false) :=
+  tags_piecewise endRe_guarded _ (by decide) ⟨'S', rfl, by decide⟩
+
+theorem con_piecewise : Piecewise (findSpdxTagWith Generated.endRe Generated.contributorTag) (fun u => openEnd u = false) :=
+  tags_piecewise endRe_guarded _ (by decide) ⟨'S', rfl, by decide⟩
+
+theorem openEnd_rstrip (b : Text) : openEnd (rstrip b) = openEnd b := by
+  obtain ⟨w, hw, hb⟩ := rstrip_spec b
+  conv => rhs; rw [hw]
+  unfold openEnd
+  rw [lastNonSpace_append_blank _ w hb]
+
+theorem okEnded_of_openEnd {h : Text} (hl : lineEnded h = true) (ho : openEnd h = false) :
+    h = [] ∨ ∃ h0, h = h0 ++ ['\n'] ∧ openEnd h0 = false := by
+  rcases lineEnded_iff.mp hl with h1 | ⟨u, rfl⟩
+  · exact .inl h1
+  · refine .inr ⟨u, rfl, ?_⟩
+    unfold openEnd at ho ⊢
+    rw [lastNonSpace_append_blank u ['\n'] (by decide)] at ho
+    exact ho
+
+/-- **Tag values, one step, the whole file** (for either tag): a value the old text holds is held by the new text or by the
+    old header block; a value the new header block holds is held by the new text. -/
+theorem step_tag {F : Text → List Text} (P : Piecewise F (fun u => openEnd u = false))
+    {c : HdrCfg} {replace : Bool} {t t' hdr : Text}
+    (hstyle : replace = true → (c.style.name == "EmptyCommentStyle") = false)
+    (hno : NoExoticBreaks t)
+    (ht' : t' = placeHeader hdr (sectionsOf c replace t).1 (sectionsOf c replace t).2.2 (!(sectionsOf c replace t).2.1.isEmpty))
+    (hc : cleanSeam (sectionsOf c replace t).1 = true)
+    (ho1 : openEnd (sectionsOf c replace t).1 = false) (ho2 : openEnd (sectionsOf c replace t).2.1 = false)
+    (ho3 : openEnd hdr = false) :
+    (∀ x ∈ F t, x ∈ F t' ∨ x ∈ F (sectionsOf c replace t).2.1) ∧ (∀ x ∈ F hdr, x ∈ F t') := by
+  have hs := sections_ok c replace t hstyle hno
+  rw [ht']
+  exact step_pieces P _ hs hc (by rw [openEnd_rstrip]; exact ho1) (okEnded_of_openEnd hs.block ho2) ho3
+
+/-- what `stepGoodFull` gives for a step that wrote `t'` -/
+theorem seamOK_parts {o : Op} {t hdr : Text} (h : seamOK o t = true)
+    (hcr : createHeader o.c o.info (sectionsOf o.c o.replace t).2.1 = .ok hdr) :
+    cleanSeam (sectionsOf o.c o.replace t).1 = true ∧ openEnd (sectionsOf o.c o.replace t).1 = false ∧
+      openEnd (sectionsOf o.c o.replace t).2.1 = false ∧ openEnd hdr = false := by
+  unfold seamOK newHeaderOf at h
+  simp only [hcr, Bool.and_eq_true, Bool.not_eq_true'] at h
+  exact ⟨h.1.1.1, h.1.1.2, h.1.2, h.2⟩
+
+/-- **One step, the whole file: copyright notices and licence expressions.** -/
+theorem step_declares {norm : Text → Text} {o : Op} {t t' : Text}
+    (hw : annotateText o.c o.replace o.skipExisting o.info t = .written t') (hg : stepGoodFull norm o t) :
+    Declares norm (extractRaw t') ((extractRaw t).cpr ++ o.info.cpr) ((extractRaw t).lic ++ o.info.lic) := by
+  obtain ⟨hn, hidem, hmerge, hstyle, hno, hns, hns', hseam⟩ := hg t' hw
+  obtain ⟨hdr, hcr, ht'⟩ := annotate_sections hw hno
+  obtain ⟨hc, ho1, ho2, ho3⟩ := seamOK_parts hseam hcr
+  refine ⟨fun x hx => step_cpr hw hmerge hstyle hno hns hns' hc x (List.mem_append.mp hx), fun x hx => ?_⟩
+  have hs := sections_ok o.c o.replace t hstyle hno
+  have hnsT : findSub Generated.ignoreStart t = none := by
+    unfold noIgnoreStart at hns; simpa using hns
+  have hnsT' : findSub Generated.ignoreStart t' = none := by
+    unfold noIgnoreStart at hns'; simpa using hns'
+  have hnsH := noIgnore_block hs hns
+  have hnsHdr : findSub Generated.ignoreStart hdr = none := noIgnore_placed (by rw [← ht']; exact hns')
+  obtain ⟨h1, h2⟩ := step_tag lic_piecewise hstyle hno ht' hc ho1 ho2 ho3
+  have hd := createHeader_declares hmerge (by rw [hn]; exact hidem) hcr
+  rw [hn] at hd
+  -- a value read from the new block is read from the new text
+  have hfromHdr : ∀ x, norm x ∈ (extractRaw hdr).lic.map norm → norm x ∈ (extractRaw t').lic.map norm := by
+    intro x hx
+    obtain ⟨v, hv, hvx⟩ := List.mem_map.mp hx
+    exact List.mem_map.mpr ⟨v, (mem_extractRaw_lic hnsT').mpr (h2 v ((mem_extractRaw_lic hnsHdr).mp hv)), hvx⟩
+  rcases List.mem_append.mp hx with hx | hx
+  · rcases h1 x ((mem_extractRaw_lic hnsT).mp hx) with h | h
+    · exact List.mem_map_of_mem ((mem_extractRaw_lic hnsT').mpr h)
+    · have hne : (sectionsOf o.c o.replace t).2.1 ≠ [] := by
+        intro e; rw [e, lic_piecewise.nil] at h; cases h
+      exact hfromHdr x ((hd.2 hne).2 x ((mem_extractRaw_lic hnsH).mpr h))
+  · exact hfromHdr x (hd.1.2 x hx)
+
+/-- **One step, the whole file: contributors**, for a template that renders the contributors it is handed. -/
+theorem step_contributors {norm : Text → Text} {o : Op} {t t' : Text}
+    (hw : annotateText o.c o.replace o.skipExisting o.info t = .written t') (hg : stepGoodFull norm o t)
+    (hren : rendersCon o t = true) (x : Text) (hx : x ∈ (extractRaw t).con ∨ x ∈ o.info.con) :
+    x ∈ (extractRaw t').con := by
+  obtain ⟨hn, hidem, hmerge, hstyle, hno, hns, hns', hseam⟩ := hg t' hw
+  obtain ⟨hdr, hcr, ht'⟩ := annotate_sections hw hno
+  obtain ⟨hc, ho1, ho2, ho3⟩ := seamOK_parts hseam hcr
+  have hs := sections_ok o.c o.replace t hstyle hno
+  have hnsT : findSub Generated.ignoreStart t = none := by
+    unfold noIgnoreStart at hns; simpa using hns
+  have hnsT' : findSub Generated.ignoreStart t' = none := by
+    unfold noIgnoreStart at hns'; simpa using hns'
+  have hnsH := noIgnore_block hs hns
+  have hnsHdr : findSub Generated.ignoreStart hdr = none := noIgnore_placed (by rw [← ht']; exact hns')
+  obtain ⟨h1, h2⟩ := step_tag con_piecewise hstyle hno ht' hc ho1 ho2 ho3
+  unfold rendersCon newHeaderOf at hren
+  simp only [hcr, List.all_eq_true, List.mem_append, List.contains_eq_mem, decide_eq_true_eq] at hren
+  have hfromHdr : x ∈ (extractRaw hdr).con → x ∈ (extractRaw t').con :=
+    fun h => (mem_extractRaw_con hnsT').mpr (h2 x ((mem_extractRaw_con hnsHdr).mp h))
+  rcases hx with hx | hx
+  · rcases h1 x ((mem_extractRaw_con hnsT).mp hx) with h | h
+    · exact (mem_extractRaw_con hnsT').mpr h
+    · exact hfromHdr (hren x (.inr ((mem_extractRaw_con hnsH).mpr h)))
+  · exact hfromHdr (hren x (.inl hx))
 
 end C09L
